@@ -8,7 +8,10 @@ Rec(v) == [v |-> v, enc |-> Encode(v),
                                   \cup {[why |-> a[1], bytes |-> a[2]] : a \in CompressedAlts(v)})
                     ELSE <<>>]
 ASSUME ndJsonSerialize(IOEnv.OUT, SetToSeq({Rec(v) : v \in U}) \o (IF IOEnv.UNIVERSE = "IDS" THEN SetToSeq(LocalAltVectors) ELSE <<>>))
-ASSUME ndJsonSerialize(IOEnv.OUT_TWINS, SetToSeq(UNION {{[v |-> i, enc |-> Encode(i), twin |-> t, twin_enc |-> Encode(t)] : t \in Twins(i)} : i \in IdPlain \cup IdLocal}))
+TwinRecs == UNION {{[v |-> i, enc |-> Encode(i), twin |-> t, twin_enc |-> Encode(t), kind |-> "twin", map_enc |-> <<>>] : t \in Twins(i)} : i \in IdPlain \cup IdLocal}
+VariantRecs == UNION {{[v |-> i, enc |-> Encode(i), twin |-> t, twin_enc |-> Encode(t), kind |-> "variant",
+                        map_enc |-> Encode(VMap(CanonMap(<< <<i, SmallInt(1)>>, <<t, SmallInt(2)>> >>)))] : t \in Variants(i)} : i \in IdPlain \cup IdLocal}
+ASSUME ndJsonSerialize(IOEnv.OUT_TWINS, SetToSeq(TwinRecs \cup VariantRecs))
 ASSUME ndJsonSerialize(IOEnv.OUT_UNENC, SetToSeq({[v |-> v] : v \in Unencodable}))
 ASSUME PrintT(<<"universe", Cardinality(U)>>)
 VARIABLE x
